@@ -393,4 +393,35 @@ theorem unpackChunkMem_packed (amino : Bool) (ds : List (List UInt8)) (maxpacket
   unpackChunkMem_correct amino _ maxpacket maxseq fill ds hpn (by rw [eodCount_flatMap_pk amino ds hd]; exact hN)
     (unpackChunk_pk amino ds hd)
 
+/-- every chunk the byte-level loader delivers (`Tiles`) unpacks IN PLACE, in the chunk buffer made for the reader's limits,
+    to exactly the sequences of its records -/
+theorem tiles_unpack_in_place (amino : Bool) (db : List SeqRec) (maxseq : Nat) (maxpacket : Int) (hwf : ∀ r ∈ db, r.Wf)
+    (fill : UInt8) : ∀ (out : List (BChunk × List SeqRec)) (pos : Nat), Tiles amino db maxseq maxpacket pos out →
+    ∀ c ∈ out, ∃ mem', unpackChunkMem amino (loadedSmem amino maxpacket.toNat maxseq c.1.psq fill)
+          (chunkPsqOff amino maxpacket.toNat maxseq) c.1.pn = some (mem', segsOf 0 (c.2.map (·.dsq))) ∧
+        mem'.take (smemLayout (c.2.map (·.dsq))).length = smemLayout (c.2.map (·.dsq))
+  | [], _, _, c, hc => by cases hc
+  | (c0, rs) :: rest, pos, h, c, hc => by
+    obtain ⟨_, _, hn, hp, hle, hrs, hpsq, hpn, _, ht⟩ := h
+    rcases List.mem_cons.mp hc with rfl | hc'
+    · have hsub : ∀ r ∈ rs, r ∈ db := by
+        intro r hr; rw [hrs] at hr
+        exact List.mem_of_mem_drop (List.mem_of_mem_take hr)
+      have hd : ∀ d ∈ rs.map (·.dsq), ∀ x ∈ d, x ≤ 30 := by
+        intro d hd
+        obtain ⟨r, hr, rfl⟩ := List.mem_map.mp hd
+        exact (hwf r (hsub r hr)).2.2.2.2
+      have hflat : (rs.map (·.dsq)).flatMap (pk amino) = rs.flatMap (PK amino) := by simp [List.flatMap_map]
+      have hlen : rs.length ≤ maxseq := by
+        have : rs.length ≤ c0.n := by rw [hrs]; simp [List.length_take]; omega
+        omega
+      have hpk : ((rs.map (·.dsq)).flatMap (pk amino)).length ≤ maxpacket.toNat := by
+        rw [hflat, ← hpsq, ← hpn]; omega
+      obtain ⟨mem', h1, _, h3⟩ := unpackChunkMem_packed amino (rs.map (·.dsq)) maxpacket.toNat maxseq fill hd hpk (by simpa using hlen)
+      refine ⟨mem', ?_, h3⟩
+      simp only
+      rw [hpsq, hpn, hpsq, ← hflat]
+      exact h1
+    · exact tiles_unpack_in_place amino db maxseq maxpacket hwf fill rest _ ht c hc'
+
 end EaselModel.Dsqdata
